@@ -7,6 +7,10 @@ BASELINE_OFF = ("cd /repo && cargo nextest run --workspace --no-fail-fast --test
 
 # id -> (level, technique, design_ref, text, note)
 CHECKS = {
+ "C18": ("model_checking", "explicit-state breadth-first search with the real s3s-fs backend as transition function against a reference in-memory store; canonical-state hashing; full read set evaluated in every state",
+         "DESIGN §4 C18, §2 E4",
+         "All histories over a small universe (quick: 1 bucket, 2 keys, 2 contents, 2 metadata values, 2 identities, 1 upload; thorough: 2 buckets, 3 keys, 4 contents up to 3 read buffers, 2-part uploads) are explored to a fixpoint of (model, disk) states; every transition runs on the implementation and is compared with the reference map, and in every reached state every key is read under every Range form, headed, listed under every prefix/start-after, and uploads are listed. Chained operations reach the non-initial states where the defects live (stale metadata, resurrected buckets).",
+         "only property-defined observables are compared; where the statement is silent the model follows the implementation; universe sizes bound the histories; thorough is wall-capped and reports whether the fixpoint was reached"),
  "C17": ("exploration", "exhaustive enumeration of traversal-rich keys / copy sources / bucket names / upload ids x backend operations on the real s3s-fs backend, with whole-tree snapshot diff and marker search",
          "DESIGN §4 C17",
          "All sequences of 1..3 segments over a 12-symbol traversal alphabet (with/without leading slash, plus deep escapes) x 18 operations at the S3 trait and GET/PUT/DELETE/copy through S3Service::call in three spellings, against a store with two marked buckets, a foreign open upload and a marked sentinel tree beside and above the root; after every operation the complete directory tree is diffed and everything read back is searched for foreign markers.",
@@ -61,7 +65,7 @@ CHECKS = {
          "clock read through the verif-hooks seam; sub-resource list as documented today (torrent not in the grid)"),
  "C05": ("exploration", "bounded exhaustive enumeration of signed requests x single-component mutations, differential against a reference verifier, on the real S3Service::call",
          "DESIGN §4 C05",
-         "A grid of honestly signed requests (5 methods x 15 paths x 10 query multisets x 8 signed-header shapes x payload/mode x HTTP/1.1|HTTP/2) times every applicable single-component mutation and 6 canonical-equivalent rewrites; every case runs through the real service and is compared with a reference verifier written from the AWS specification. Exhaustive over the stated grid: both directions of the iff (accept honest, reject every tampering) are decided per case.",
+         "A grid of honestly signed requests (5 methods x 15 paths x 10 query multisets x 10 signed-header shapes x payload/mode x HTTP/1.1|HTTP/2) times every applicable single-component mutation and 6 canonical-equivalent rewrites; every case runs through the real service and is compared with a reference verifier written from the AWS specification. Exhaustive over the stated grid: both directions of the iff (accept honest, reject every tampering) are decided per case.",
          "reference signer validated on the AWS documentation vectors at start-up and against the aws-sigv4 crate on every grid point (disagreeing points excluded and counted); values outside the grid and multi-component tampering are not covered"),
  "C20": ("exploration", "bounded exhaustive enumeration of pattern x input pairs and policy document shapes against a reference model, on the real code",
          "DESIGN §4 C20",
